@@ -10,8 +10,8 @@ RULE = ("Each case draws a doer forest whose scripted doers call extend()/remove
         "running stack (their parent, grandparent or the Doist; DoDoers mostly always=True) at seeded cycles: extend with new "
         "doers (incl. DoDoers with children, doers that finish in enter) and/or already-present ones; remove of self, "
         "siblings that are due / not yet due / already completed, non-members, DoDoers with live children, ancestors. "
-        "Oracle per call: new doers are entered between call and return in argument order and nothing else is; their "
-        "first recur is in a later cycle; already-present doers are not entered again; removed doers get cease then exit "
+        "Oracle per call: new doers are entered between call and return in argument order and nothing else is; a new doer that does not finish in its enter is not closed inside the call and "
+        "recurs in the scheduler's next pass (a later cycle), unless it was removed first; already-present doers are not entered again; removed doers get cease then exit "
         "before remove() returns and never recur afterwards, except doers on the caller's own stack (self / ancestors), "
         "which keep running until they return; after every call and at the end the scheduler's doers list equals the "
         "added-and-not-removed list in insertion order. Non-trivial: >= 1 extend and >= 1 remove took effect in the same "
